@@ -135,7 +135,8 @@ def prec_replay(k0, pool1, pool2, wrap):
 LEAF_TARGETS = ["1", "'s'", "this", "null", "true", "/r/", "[a]", "({})", "(function () {})", "(a, b)", "(a + b)", "(-a)", "(a++)", "f()",
                 "(new F)", "new F()", "(a ? b : c)", "(a = b)", "(typeof a)", "(x => x)", "(a && b)", "(++a)", "1.5", "((2))", "(a.b, a.c)"]
 TARGET_FORMS = ["%s = 1;", "%s += 1;", "%s >>>= 1;", "++%s;", "--%s;", "%s++;", "%s--;", "x = %s = 2;", "for (%s in o) {}", "for (%s of o) {}",
-                "y = [%s = 1];", "f(%s -= 1);", "if (c) %s *= 2;", "(%s) = 1;", "((%s))++;"]
+                "y = [%s = 1];", "f(%s -= 1);", "if (c) %s *= 2;", "(%s) = 1;", "((%s))++;", "x = ((%s) = 2);", "[(%s) = 1];", "y = [[0], (%s)++];",
+                "f(((%s)) -= 1);", "((%s) = 1, 2);"]
 REF_TARGETS = ["a", "a.b", "a[0]", "a.b.c", "a[b][c]", "f().x", "(a)", "(a.b)", "this.p", "a['k']"]
 
 
